@@ -316,7 +316,12 @@ def _rewrite(p: Dict[str, Any], stats: Dict[str, int]) -> List[Dict[str, Any]]:
             before = [json.loads(ln) for ln in open(os.path.join(root, "logs", f), "rb").read().decode("utf-8").split("\n")[:-1]]
             iolog.rewrite_jsonl(f, before)
             raw = open(os.path.join(root, "logs", f), "rb").read()
-            after = [json.loads(ln) for ln in raw.decode("utf-8").split("\n")[:-1]] if raw else []
+            try:
+                after = [json.loads(ln) for ln in raw.decode("utf-8").split("\n")[:-1]] if raw else []
+            except Exception as e:  # noqa: BLE001
+                viol.append({"cls": "rewrite", "sig": "rewrite:unparsable-line", "detail": "%s after compaction: %r (%d lines for %d records)" % (
+                    f, e, raw.count(b"\n"), len(before))})
+                continue
             if after != before:
                 viol.append({"cls": "rewrite", "sig": "rewrite:records-changed", "detail": "%s: %s -> %s" % (f, str(before)[:160], str(after)[:160])})
             if raw and (not raw.endswith(b"\n") or b"\r" in raw.replace(b"\\r", b"")):
